@@ -463,6 +463,16 @@ func c04Alphabet(s *sessSys) []sessReq {
 						add("mod-ufar-fwd-peer1-no-dst-interface", sessReq{sReq: sReq{Kind: kMod, Conn: c, UpdateFAR: []sFAR{{ID: 2, Action: ActionForward, HasFwd: true, OHCIP: peer, OHCTEID: 0x7001}}}, Sess: x.Idx})
 					}
 				}
+				if f1 := x.far(1); f1 != nil && f1.Action&ActionForward != 0 && f1.OHCIP == "" && (vEnv.Thorough || s.in.cfg.P4Conf == nil || s.in.cfg.P4Conf.SliceID == 0) {
+					// two Update FARs in one request: the downlink FAR moves to peer B, the uplink FAR is repeated with its
+					// Destination Interface only - in both orders (each FAR is programmed with its own parameters)
+					u2 := sFAR{ID: 2, Action: ActionForward, HasFwd: true, HasDst: true, Dst: ie.DstInterfaceAccess, OHCIP: c04Peers[1], OHCTEID: 0x7005}
+					u1 := sFAR{ID: 1, Action: ActionForward, HasFwd: true, HasDst: true, Dst: ie.DstInterfaceCore}
+					if !(f.OHCIP == u2.OHCIP && f.OHCTEID == u2.OHCTEID) {
+						add("mod-ufar-tunnel-then-plain", sessReq{sReq: sReq{Kind: kMod, Conn: c, UpdateFAR: []sFAR{u2, u1}}, Sess: x.Idx})
+						add("mod-ufar-plain-then-tunnel", sessReq{sReq: sReq{Kind: kMod, Conn: c, UpdateFAR: []sFAR{u1, u2}}, Sess: x.Idx})
+					}
+				}
 				if f.Action&ActionBuffer == 0 {
 					if q1 := x.qer(1); q1 != nil && q1.GateDL == 0 && q1.QFI != 5 {
 						// a modification that carries nothing but an Update QER: the downlink gate closes / the QFI changes
